@@ -1,6 +1,7 @@
 (* Proofs/C49Wild.v — dowild (flags = 0, the only way gitignore calls it) is
    sound and complete for the declarative glob semantics of Spec/Glob.v on
-   the fragment  literal | \c | ? | * | ** | simple bracket sets.
+   the fragment  literal | \c | ? | * | ** | bracket sets (ranges, escapes,
+   negation, POSIX classes).
    What needs proof is the pruning: wmAbortAll claims that no suffix of the
    text can match, and the fast-forward over bytes different from a literal
    that follows a star. *)
@@ -151,6 +152,29 @@ Proof. unfold in_ranges. cbn. rewrite orb_false_r. apply andb_comm. Qed.
 Lemma in_ranges_app a b c : in_ranges (a ++ b) c = in_ranges a c || in_ranges b c.
 Proof. unfold in_ranges. apply existsb_app. Qed.
 
+(* POSIX classes: matchPOSIXClass decides membership in the ranges the class denotes *)
+Lemma bytes_eqb_beq a b : bytes_eqb a b = beq a b.
+Proof. reflexivity. Qed.
+
+Lemma cut_rb_split s : cut_rb s = split_rb s.
+Proof. reflexivity. Qed.
+
+Ltac bool_lia :=
+  apply eq_true_iff_eq; unfold in_ranges, is_alpha, is_digit, is_upper, is_lower, is_punct;
+  cbn [existsb fst snd andb orb];
+  rewrite ?orb_false_r; rewrite ?orb_true_iff, ?andb_true_iff, ?N.leb_le, ?N.ltb_lt, ?N.eqb_eq; lia.
+
+Lemma posix_class_ranges name tch :
+  posix_class name tch false =
+  match class_ranges name with Some rs => Some (in_ranges rs tch) | None => None end.
+Proof.
+  unfold posix_class, class_ranges. change bytes_eqb with beq.
+  repeat match goal with
+  | |- (if beq name ?l then _ else _) = _ => destruct (beq name l); [apply f_equal; bool_lia|]
+  end.
+  reflexivity.
+Qed.
+
 Definition prevN (prev : option N) : N := match prev with Some x => x | None => 0 end.
 Definition prev_ok (prev : option N) : Prop := match prev with Some x => x <> 0 | None => True end.
 
@@ -214,7 +238,43 @@ Proof.
         as (rs1 & -> & Ht); [exact I|cbn; lia|exact Hp|].
       cbn [prevN] in Ht |- *. unfold cRB in Ht. rewrite Ht. f_equal.
       rewrite in_ranges_app, in_ranges_one. cbn [andb]. now rewrite orb_false_r, orb_assoc. }
-  destruct ((c =? 91) && match r with [] => false | h :: _ => h =? 58 end) eqn:CP; [discriminate|].
+  destruct ((c =? 91) && match r with [] => false | h :: _ => h =? 58 end) eqn:CP.
+  { (* "[:" *)
+    apply andb_true_iff in CP. destruct CP as [C91 _]. apply N.eqb_eq in C91. subst c.
+    destruct r as [|c0 r0]; [discriminate|].
+    rewrite cut_rb_split in Hp.
+    destruct (split_rb r0) as [[name' after]|] eqn:Esp; [|discriminate].
+    pose proof (split_rb_len _ _ _ Esp) as Hlen.
+    assert (Hlit : forall rs' rest',
+      match c0 :: r0 with
+      | [] => None
+      | x :: after0 =>
+        if x =? 93 then Some ([(91, 91)], after0)
+        else match parse_elems pf (Some 91) (c0 :: r0) with
+             | Some (rs'0, rest'0) => Some ([(91, 91)] ++ rs'0, rest'0)
+             | None => None
+             end
+      end = Some (rs', rest') -> rs' = rs -> rest' = rest ->
+      match c0 :: r0 with
+      | [] => CAbort
+      | c1 :: r1 => if c1 =? 93 then CDone (matched || (tch =? 91)) r1
+                    else cls_loop f false tch 91 (matched || (tch =? 91)) c1 r1
+      end = CDone (matched || in_ranges rs tch) rest).
+    { intros rs' rest' H -> ->.
+      destruct (Htail (Some 91) [(91, 91)] (c0 :: r0) (matched || (tch =? 91))) as (rs1 & -> & Ht);
+        [cbn; discriminate|lia|exact H|].
+      cbn [prevN] in Ht. unfold cRB in Ht. rewrite Ht. f_equal.
+      now rewrite in_ranges_app, in_ranges_single, orb_assoc. }
+    destruct (rev name') as [|lastc rname].
+    { eapply Hlit; [exact Hp|reflexivity|reflexivity]. }
+    destruct (negb (lastc =? 58)).
+    { eapply Hlit; [exact Hp|reflexivity|reflexivity]. }
+    rewrite posix_class_ranges.
+    destruct (class_ranges (rev rname)) as [crs|]; [|discriminate].
+    destruct (Htail None crs after (matched || in_ranges crs tch)) as (rs1 & -> & Ht);
+      [exact I|cbn in Hlen |- *; lia|exact Hp|].
+    cbn [prevN] in Ht. unfold cRB in Ht. rewrite Ht. f_equal.
+    now rewrite in_ranges_app, orb_assoc. }
   destruct (Htail (Some c) [(c, c)] r (matched || (tch =? c))) as (rs1 & -> & Ht);
     [cbn; now apply N.eqb_neq|lia|exact Hp|].
   cbn [prevN] in Ht. unfold cRB in Ht. rewrite Ht. f_equal.
